@@ -27,16 +27,20 @@ Proof.
 Qed.
 
 (* ---- one iteration of Runtime::run ---- *)
-Lemma loop_step_winv ts0 w : WInv ts0 (fun _ => False) w ->
-  match loop_step true w with
-  | inl w' => WInv ts0 (fun _ => False) w'
-  | inr w' => w' = w /\ spend (w_fes w) = []
-  end.
+(* the loop ends iff the event set is empty; otherwise the fetched event is a wake-up or a
+   message, and the state in which its module_event begins satisfies PreEv *)
+Lemma loop_step_pre ts0 w : WInv ts0 (fun _ => False) w ->
+  (spend (w_fes w) = [] /\ loop_step true w = inr w) \/
+  exists x w1 t m spawn fire,
+    loop_step true w = inl (take_snaps (module_event true t m spawn fire w1)) /\
+    PreEv ts0 (fun _ => False) w1 t m spawn fire /\
+    spend (w_fes w) = x :: spend (w_fes w1) /\ w_tasks w1 = w_tasks w /\ (fire = true \/ spawn <> []).
 Proof.
   intros HW. pose proof HW as [Hsi Htc Hmail Hbase Hdrv Hmsgs].
   assert (Hcase : spend (w_fes w) = [] \/ spend (w_fes w) <> []) by (destruct (spend (w_fes w)); [left; reflexivity|right; discriminate]).
   destruct Hcase as [Esp|Esp].
-  { unfold loop_step. rewrite (fetch_none _ Esp). split; [reflexivity|exact Esp]. }
+  { left. split; [exact Esp|]. unfold loop_step. rewrite (fetch_none _ Esp). reflexivity. }
+  right.
   destruct (fetch_some (w_fes w) Hsi Esp) as (x & s' & Hf & Hsp & Htc' & Hle & Hmin).
   unfold loop_step. rewrite Hf.
   assert (Hsi' : SI s') by (pose proof (SI_fetch _ Hsi) as H; rewrite Hf in H; exact H).
@@ -44,7 +48,8 @@ Proof.
   set (w1 := set_fes w s').
   destruct (epay x <? 2) eqn:Ep.
   - (* the AsyncWakeupEvent of module [epay x] *)
-    apply winv_take_snaps, module_event_winv. constructor; cbn [w1 set_fes w_fes w_now w_mail w_tasks w_owner w_nid].
+    exists x, w1, (etime x), (epay x), [], true. split; [reflexivity|]. split; [|split; [exact Hsp|split; [reflexivity|left; reflexivity]]].
+    constructor; cbn [w1 set_fes w_fes w_now w_mail w_tasks w_owner w_nid].
     + exact Hsi'.
     + exact Htc'.
     + lia.
@@ -52,8 +57,8 @@ Proof.
     + exact Hmail.
     + exact Hbase.
     + lia.
-    + intros m' Hm'. destruct (Hdrv m' Hm') as (l & Hl & Hinv & Hperm & Htie). exists l. split; [exact Hl|].
-      change (drv_of (set_fes w s') m') with (drv_of w m'). split; [exact Hinv|]. split; [|exact Htie].
+    + intros m' Hm'. destruct (Hdrv m' Hm') as (l & Hl & Hinv & Hperm & Htie & Hex). exists l. split; [exact Hl|].
+      change (drv_of (set_fes w s') m') with (drv_of w m'). split; [exact Hinv|]. split; [|split; [exact Htie|exact Hex]].
       rewrite Hsp, wakes_cons in Hperm. cbn [andb]. destruct (N.eq_dec m' (epay x)) as [->|Hne].
       * rewrite N.eqb_refl in *. exact Hperm.
       * replace (epay x =? m') with false in Hperm by lia. replace (m' =? epay x) with false by lia. exact Hperm.
@@ -72,7 +77,8 @@ Proof.
     destruct (Mt x (or_introl eq_refl)) as (k & tk & E1 & Hk & Hun & E2 & E3); [lia|].
     rewrite E1, msg_of_nat. change (w_tasks w1) with (w_tasks w). rewrite Hk.
     cbn [map filter] in Mn. replace (2 <=? epay x) with true in Mn by lia. inversion Mn as [|? ? Hnotin Mn']; subst.
-    apply winv_take_snaps, module_event_winv. constructor; cbn [w1 set_fes w_fes w_now w_mail w_tasks w_owner w_nid].
+    exists x, w1, (etime x), (t_mod tk), [k], false. split; [reflexivity|]. split; [|split; [exact Hsp|split; [reflexivity|right; discriminate]]].
+    constructor; cbn [w1 set_fes w_fes w_now w_mail w_tasks w_owner w_nid].
     + exact Hsi'.
     + exact Htc'.
     + lia.
@@ -80,8 +86,8 @@ Proof.
     + exact Hmail.
     + exact Hbase.
     + exact (base_mod _ _ _ _ _ _ Hbase Hk).
-    + intros m' Hm'. destruct (Hdrv m' Hm') as (l & Hl & Hinv & Hperm & Htie). exists l. split; [exact Hl|].
-      change (drv_of (set_fes w s') m') with (drv_of w m'). split; [exact Hinv|]. split; [|exact Htie].
+    + intros m' Hm'. destruct (Hdrv m' Hm') as (l & Hl & Hinv & Hperm & Htie & Hex). exists l. split; [exact Hl|].
+      change (drv_of (set_fes w s') m') with (drv_of w m'). split; [exact Hinv|]. split; [|split; [exact Htie|exact Hex]].
       rewrite Hsp, wakes_cons in Hperm. replace (epay x =? m') with false in Hperm by lia. exact Hperm.
     + constructor; [intros []|constructor].
     + intros k' [<-|[]]. exists tk. split; [exact Hk|]. split; [exact Hun|]. split; [reflexivity|lia].
@@ -95,6 +101,35 @@ Proof.
         -- left. right. left. apply msg_of_inj. rewrite <- E1, <- Ee. reflexivity.
         -- right. exists e. split; assumption.
       * intros k' [[]|[<-|[]]]. exists tk. split; assumption.
+Qed.
+
+Lemma loop_step_winv ts0 w : WInv ts0 (fun _ => False) w ->
+  match loop_step true w with
+  | inl w' => WInv ts0 (fun _ => False) w'
+  | inr w' => w' = w /\ spend (w_fes w) = []
+  end.
+Proof.
+  intros HW. destruct (loop_step_pre ts0 w HW) as [(Esp & ->)|(x & w1 & t & m & spawn & fire & -> & HP & _)].
+  - split; [reflexivity|exact Esp].
+  - apply winv_take_snaps, module_event_winv. exact HP.
+Qed.
+
+(* every iteration lowers  2 * (steps still to go + tasks still to spawn) + pending events *)
+Definition mu (w : world) : nat := (2 * work (w_tasks w) + length (spend (w_fes w)))%nat.
+
+Lemma loop_step_measure ts0 w : WInv ts0 (fun _ => False) w ->
+  match loop_step true w with
+  | inl w' => (mu w' + 1 <= mu w)%nat
+  | inr _ => True
+  end.
+Proof.
+  intros HW. destruct (loop_step_pre ts0 w HW) as [(Esp & ->)|(x & w1 & t & m & spawn & fire & -> & HP & Hsp & Hts & Hcase)]; [exact I|].
+  destruct (module_event_measure _ _ _ _ _ _ _ HP) as (nq & H1 & H2 & H3).
+  unfold mu. change (w_tasks (take_snaps ?W)) with (w_tasks W). change (w_fes (take_snaps ?W)) with (w_fes W).
+  rewrite Hsp. cbn [length]. rewrite <- Hts.
+  destruct Hcase as [Hf|Hs].
+  - destruct nq as [|nq]; [|lia]. destruct (H3 Hf eq_refl) as [E1 E2]. lia.
+  - specialize (H2 Hs). lia.
 Qed.
 
 (* ---- when the event set is empty ---- *)
@@ -120,7 +155,7 @@ Proof.
     destruct (m_all _ _ _ Hmsgs k tk0 Hk (conj I2 I5)) as [[]|(e & He & _)]. rewrite Hsp in He. contradiction.
   - (* blocked: its timer is live, so a wake-up would still be in the event set *)
     exfalso. pose proof (base_mod _ _ _ _ _ _ Hbase Hk) as Hm.
-    destruct (Hdrv (t_mod tk) Hm) as (l & _ & [Hmid Hwake] & Hperm & [Hentry _]).
+    destruct (Hdrv (t_mod tk) Hm) as (l & _ & [Hmid Hwake] & Hperm & [Hentry _] & _).
     assert (Hbl : blocked_sleep tk = Some s) by (unfold blocked_sleep; rewrite H5; reflexivity).
     pose proof (Hentry k tk s Hk Hbl eq_refl (fun F => F)) as Hin.
     assert (Hne : ents_at (deadline s) (pending (drv_of w (t_mod tk))) <> []) by (intros E; rewrite E in Hin; contradiction).
